@@ -141,6 +141,27 @@ fn add<V: Full>(prop: &mut Property, ctx: &Ctx) {
             .witness(&["roundtrip-ok", "params-ok"]),
         );
     }
+    // a cost setting far above the defaults (valid parameters, no budget in this property): one case per key kind
+    {
+        let wk = wk.clone();
+        let picks: Vec<usize> = vec![2, ks.locals.len()];
+        prop.subs.push(
+            Sub::new(format!("{name}/pbkw-high-cost"), picks.len() as u64, "password_wrap_with_params with a very high but valid cost (1 000 001 PBKDF2 iterations / Argon2id 96 MiB, 4 passes): vector local key and first secret key", move |idx, describe| {
+                let w = &wk[picks[idx as usize]];
+                let mut o = Outcome::new();
+                if describe {
+                    o.sample = Some(json!({"backend": name, "op": "pbkw-high-cost", "wrapped": format!("{}:{}", if w.secret {"secret"} else {"local"}, w.key.label)}));
+                }
+                let base = format!("{name}/pbkw-high-cost/{}", if w.secret { "secret" } else { "local" });
+                let params = params_for::<V>(Cost::High);
+                let expect = V::pbkw_prefix_len() + w.key.bytes.len() + V::tag_len().max(32);
+                let wrapped = subject(|| if w.secret { pk::pw_wrap::<V, Secret>(&w.key.bytes, b"pw", Some(&params)) } else { pk::pw_wrap::<V, Local>(&w.key.bytes, b"pw", Some(&params)) });
+                check_roundtrip(&mut o, &base, envdep, &w.key.bytes, wrapped, expect, |s| subject(|| if w.secret { pk::pw_unwrap::<V, Secret>(s, b"pw") } else { pk::pw_unwrap::<V, Local>(s, b"pw") }));
+                o
+            })
+            .witness(&["roundtrip-ok"]),
+        );
+    }
     // default parameters (one case per key kind; the defaults are the expensive settings)
     {
         let wk = wk.clone();
